@@ -162,7 +162,72 @@ func opFzShares(ts, ns, seed, content, shares string) (string, string) {
 }
 
 func opFzParse(selHex, docHex string) (string, string) {
-	sel, doc := string(h.UnHex(selHex)), h.UnHex(docHex)
+	return runParse(string(h.UnHex(selHex)), h.UnHex(docHex))
+}
+
+// deepDoc: the document and selector of a `deep <kind> <depth>` line (built here: at the depths
+// that matter the document has megabytes). Nesting is the one dimension of a fetched document the size
+// bound of dataFetch does not bound the COST of: every evaluator / encoder behind dataParse recurses once
+// per level, and a goroutine stack overflow is a fatal error no recover() catches.
+func deepDoc(kind string, d int) (sel string, doc []byte) {
+	switch kind {
+	case "json": // [[[…]]] selected whole
+		return "$", []byte(strings.Repeat("[", d) + strings.Repeat("]", d))
+	case "jsonobj": // {"a":{"a":…1…}} selected below the root
+		return "$.a", []byte(strings.Repeat(`{"a":`, d) + "1" + strings.Repeat("}", d))
+	case "jsonstr": // flat document whose STRINGS contain the brackets: depth 2, must stay accepted
+		return "$[0]", []byte(`["` + strings.Repeat("[{", d) + `","` + strings.Repeat(`\\\"[`, d) + `"]`)
+	case "jsondesc": // recursive descent over a deep document
+		return "$..a", []byte(strings.Repeat(`{"a":`, d) + "1" + strings.Repeat("}", d))
+	case "jsonmix": // alternating arrays and objects, closing brackets hidden in strings
+		return "$", []byte(strings.Repeat(`["]",{"a":`, d) + "1" + strings.Repeat("}]", d))
+	case "xml": // <a><a>…</a></a>
+		return "/a", []byte(strings.Repeat("<a>", d) + strings.Repeat("</a>", d))
+	case "xmldesc":
+		return "//a[not(a)]", []byte(strings.Repeat("<a>", d) + "t" + strings.Repeat("</a>", d))
+	case "xmlwide": // flat: depth 2, d siblings; comments / CDATA that look like tags
+		return "/a/b[1]", []byte("<a>" + strings.Repeat("<b/><!-- <a><a> --><![CDATA[<a><a>]]>", d) + "</a>")
+	}
+	panic("bad fzdeep kind " + kind)
+}
+
+// opDeep (`deep <kind> <depth>`): dataParse on a document of nesting depth d; compared with the model's
+// depth guard ("err deep" = refused as too deep, "ok eval" = handed to the evaluators, whatever they answer).
+// Besides no panic / no fatal error / no hang: a document of ordinary depth (d <= 64) and a flat one are
+// still evaluated to a non-empty result (the guard must not refuse them).
+func opDeep(kind, ds string) (string, string) {
+	d := atoi(ds)
+	sel, doc := deepDoc(kind, d)
+	fin := make(chan struct{})
+	var impl, oracle string
+	go func() {
+		defer func() {
+			if e := recover(); e != nil {
+				fn := topRepoFrameFromCallers()
+				impl, oracle = "panic "+fn, fmt.Sprintf("panic-in-%s: %s", fn, h.OneLine(fmt.Sprint(e)))
+			}
+			close(fin)
+		}()
+		msg, err := dosnode.VerifDataParse(doc, sel)
+		switch {
+		case err != nil && strings.Contains(err.Error(), "nested deeper"):
+			impl = "err deep"
+		default:
+			impl = "ok eval"
+			if (d <= 64 || kind == "jsonstr" || kind == "xmlwide") && (err != nil || len(msg) == 0) {
+				oracle = fmt.Sprintf("not-serving-deep: a %s document of nesting depth %d is refused: err=%v", kind, d, err)
+			}
+		}
+	}()
+	select {
+	case <-fin:
+		return impl, oracle
+	case <-time.After(time.Hour): // the parent gives up first and kills this process (the evaluation cannot be interrupted)
+		return "hang", fmt.Sprintf("hang-deep: dataParse did not return (%s, depth %d)", kind, d)
+	}
+}
+
+func runParse(sel string, doc []byte) (string, string) {
 	fin := make(chan struct{})
 	var impl, oracle string
 	go func() {
